@@ -70,9 +70,10 @@ def main():
     c.cov["exhaustive_depth"] = depth
     n = 2000 if c.tier == "quick" else 100000
     c.correspond(hb, "omap-random", nontrivial=nontriv, shrink=sh, n=n, len=40, seed=c.seed)
+    c.correspond(hb, "omap-wide", nontrivial=nontriv, shrink=sh, n=150 if c.tier == "quick" else 8000, seed=c.seed)
     c.correspond(hb, "omap-frommap", nontrivial=lambda r: False, n=300 if c.tier == "quick" else 20000, seed=c.seed)
     c.finish("cd /verif/lean && lake build Cog drv && lake env lean <#print axioms of the C19_* theorems>",
-             "op sequences over string keys/int values: exhaustive over an 18-op alphabet up to the stated depth plus random sequences (state observed after every op); non-trivial = at least two state-changing ops; distinct by (request, observations)")
+             "op sequences over string keys/int values: exhaustive over an 18-op alphabet up to the stated depth plus random sequences (state observed after every op) plus wide maps of 13-40 keys sorted under comparators with ties; non-trivial = at least two state-changing ops; distinct by (request, observations)")
 
 
 main()
